@@ -454,8 +454,8 @@ func (fr *Frame) doAppend(ins ssa.Instruction, c *ssa.CallCommon, args []Val, st
 	ncap := fx.s.freshConst("newcap", "Int")
 	fx.s.assume("true", "(>= "+ncap+" "+newLen+")")
 	hre := fx.s.freshConst("Hre", "(Array Ref "+srt+")")
-	fx.s.assume("true", fmt.Sprintf("(forall ((r Ref)) (! (and (=> (not (= (obj r) %s)) (= (select %s r) (select %s r))) (=> (and (= (obj r) %s) (<= 0 (idx r)) (< (idx r) (slen %s))) (= (select %s r) (select %s (mkref (sobj %s) (+ (soff %s) (idx r)))))) (=> (and (= (obj r) %s) (<= (slen %s) (idx r)) (< (idx r) %s)) (= (select %s r) (select %s (mkref (sobj %s) (+ (soff %s) (- (idx r) (slen %s)))))))) :pattern ((select %s r))))",
-		o, hre, h, o, s, hre, h, s, s, o, s, newLen, hre, h, t, t, s, hre))
+	fx.s.assume("true", fmt.Sprintf("(forall ((r Ref)) (! (and (=> (not (= (obj r) %s)) (= (select %s r) (select %s r))) (=> (and (= (obj r) %s) (<= 0 (idx r)) (< (idx r) (slen %s))) (= (select %s r) (select %s (elemref %s (idx r))))) (=> (and (= (obj r) %s) (<= (slen %s) (idx r)) (< (idx r) %s)) (= (select %s r) (select %s (elemref %s (- (idx r) (slen %s))))))) :pattern ((select %s r))))",
+		o, hre, h, o, s, hre, h, s, o, s, newLen, hre, h, t, s, hre))
 	fx.setHeap(st, key, srt, ite(fits, hin, hre))
 	res := fmt.Sprintf("(ite %s (mkslice (sobj %s) (soff %s) %s (scap %s)) (mkslice %s 0 %s %s))", fits, s, s, newLen, s, o, newLen, ncap)
 	return Val{t: res}
